@@ -40,7 +40,7 @@ ATOMS = [(), (2,), (3, 2), (2, 1, 3)]
 PROFILES = [[3], [2, 0], [0, 2], [1, 2, 3], [0, 0, 4], [2, 0, 3, 0, 1, 4, 2]]
 ORIGIN = {'darr': 0, 'numpymemmap': 0, 'idl': 0, 'julia': 1, 'maple': 1, 'mathematica': 1, 'matlab': 1, 'R': 1, 'scilab': 1}
 TABLELANG = {'julia': 'julia_ver1'}
-MUST_HIT = ['call:positional-arguments', 'path:via-symlink-dotdot', 'churn:ask-append-empties-ask', 'churn:ask-trunc-empties-ask', 'after-history-on-live-handle', 'handle-opened-by-relative-path'] + ['lang:' + l for l in LANGS] + [f'atomrank:{i}' for i in range(4)] + ['zero-length-subarray', 'withheld', 'offered', 'no-values',
+MUST_HIT = ['call:positional-arguments', 'path:via-symlink-dotdot', 'churn:ask-append-empties-ask', 'churn:ask-trunc-empties-ask', 'churn:ask-during-iterappend', 'after-history-on-live-handle', 'handle-opened-by-relative-path'] + ['lang:' + l for l in LANGS] + [f'atomrank:{i}' for i in range(4)] + ['zero-length-subarray', 'withheld', 'offered', 'no-values',
                                                                                  'path:rel', 'path:base', 'path:abs', 'len:1', 'len:2', 'len>=3'] + \
            ['indextype:' + t for t in INDEXTYPES]
 ORD = {'first': 1, 'second': 2, 'third': 3}
@@ -89,6 +89,19 @@ def make_ragged(spec, path):
             ra = darr.asraggedarray(path, items + [empt, empt], dtype=dt, indextype=spec['it'], accessmode='r+')
             ra.readcode(spec['lang'])
             darr.truncate_raggedarray(ra, len(items))
+    elif items and churn == 'ask-during-iterappend':
+        # the generator that feeds iterappend asks the same handle for code (and for the offered languages) between two of its items
+        ra = darr.asraggedarray(path, items[:1], dtype=dt, indextype=spec['it'], accessmode='r+')
+
+        def feed():
+            for j, x in enumerate(items[1:]):
+                if j == 0 or j == len(items) - 2:
+                    ra.readcodelanguages
+                    ra.readcode(spec['lang'])
+                yield x
+            ra.readcode(spec['lang'])
+        ra.readcode(spec['lang'])
+        ra.iterappend(feed())
     elif items and churn == 'trunc-last':
         # the last thing that happened to the handle is a truncation (after it had been asked for code at the larger length)
         extra = [np.ascontiguousarray(pool[:1]), np.ascontiguousarray(pool[:min(len(pool), 2)])]
@@ -355,7 +368,7 @@ def extra_specs():
         for lens in ([2, 3, 1], [1, 0, 4, 2]):
             yield {'lang': lang, 'vt': 'int16', 'it': 'int32', 'atom': [2], 'lens': lens, 'bo': '<', 'pm': 'rel', 'seed': 3, 'churn': True}
         for lens in ([3], [2, 1], [1, 0, 4, 2], [2, 0]):
-            for churn in ('trunc-last', 'ask-append-empties-ask', 'ask-trunc-empties-ask'):
+            for churn in ('trunc-last', 'ask-append-empties-ask', 'ask-trunc-empties-ask', 'ask-during-iterappend'):
                 yield {'lang': lang, 'vt': 'float32', 'it': 'int64', 'atom': [], 'lens': lens, 'bo': '<', 'pm': 'rel', 'seed': 5, 'churn': churn}
                 yield {'lang': lang, 'vt': 'int16', 'it': 'int32', 'atom': [2], 'lens': lens, 'bo': '>', 'pm': 'abs', 'seed': 6, 'churn': churn}
     # path modes
@@ -376,7 +389,7 @@ def st_spec(draw):
         lens[draw(st.integers(0, len(lens) - 1))] = 1
     return {'lang': draw(st.sampled_from(LANGS)), 'vt': draw(st.sampled_from(NUMTYPES)), 'it': draw(st.sampled_from(INDEXTYPES)), 'atom': atom,
             'lens': lens, 'bo': draw(st.sampled_from('<>')), 'pm': draw(st.sampled_from(['rel', 'base', 'abs'])), 'seed': draw(st.integers(0, 2 ** 20)),
-            'churn': draw(st.sampled_from([False, False, True, 'trunc-last', 'ask-append-empties-ask', 'ask-trunc-empties-ask'])),
+            'churn': draw(st.sampled_from([False, False, True, 'trunc-last', 'ask-append-empties-ask', 'ask-trunc-empties-ask', 'ask-during-iterappend'])),
             'relopen': draw(st.booleans()), 'via': draw(st.sampled_from([None, None, None, 'symlink-dotdot']))}
 
 
